@@ -880,12 +880,13 @@ func (self *PathNode) should2(op string, t thrift.Type, t2 thrift.Type) *PathNod
 func getStrHash(next *[]PathNode, key string, N int) *PathNode {
 	h := int(caching.StrHash(key) % uint64(N))
 	s := (*PathNode)(rt.IndexPtr(*(*unsafe.Pointer)(unsafe.Pointer(next)), sizePathNode, h))
-	for s.Path.t == PathStrKey {
+	for i := 0; i < N && s.Path.t == PathStrKey; i++ {
 		if s.Path.str() == key {
 			return s
 		}
+		// the slot pointer must wrap together with the index
 		h = (h + 1) % N
-		s = (*PathNode)(unsafe.Pointer(uintptr(unsafe.Pointer(s)) + sizePathNode))
+		s = (*PathNode)(rt.IndexPtr(*(*unsafe.Pointer)(unsafe.Pointer(next)), sizePathNode, h))
 	}
 	return nil
 }
@@ -894,8 +895,9 @@ func seekIntHash(next unsafe.Pointer, key uint64, N int) int {
 	h := int(key % uint64(N))
 	s := (*PathNode)(rt.IndexPtr(next, sizePathNode, h))
 	for s.Path.t != 0 {
+		// the slot pointer must wrap together with the index
 		h = (h + 1) % N
-		s = (*PathNode)(rt.AddPtr(unsafe.Pointer(s), sizePathNode))
+		s = (*PathNode)(rt.IndexPtr(next, sizePathNode, h))
 	}
 	return h
 }
@@ -903,12 +905,13 @@ func seekIntHash(next unsafe.Pointer, key uint64, N int) int {
 func getIntHash(next *[]PathNode, key uint64, N int) *PathNode {
 	h := int(key % uint64(N))
 	s := (*PathNode)(rt.IndexPtr(*(*unsafe.Pointer)(unsafe.Pointer(next)), sizePathNode, h))
-	for s.Path.t == PathIntKey {
+	for i := 0; i < N && s.Path.t == PathIntKey; i++ {
 		if uint64(s.Path.int()) == key {
 			return s
 		}
+		// the slot pointer must wrap together with the index
 		h = (h + 1) % N
-		s = (*PathNode)(rt.AddPtr(unsafe.Pointer(s), sizePathNode))
+		s = (*PathNode)(rt.IndexPtr(*(*unsafe.Pointer)(unsafe.Pointer(next)), sizePathNode, h))
 	}
 	return nil
 }
@@ -936,7 +939,7 @@ func (self *PathNode) GetByStr(key string, opts *Options) *PathNode {
 		n, _ := self.Node.len()
 		N := n * 2
 		// TODO: cap may change after Set. Use better way to store hash size
-		if cap(self.Next) >= N {
+		if N > 0 && cap(self.Next) >= N {
 			if s := getStrHash(&self.Next, key, N); s != nil {
 				return s
 			}
@@ -969,7 +972,7 @@ func (self *PathNode) SetByStr(key string, val Node, opts *Options) (bool, error
 		n, _ := self.Node.len()
 		N := n * 2
 		// TODO: cap may change after Set. Use better way to store hash size
-		if cap(self.Next) >= N {
+		if N > 0 && cap(self.Next) >= N {
 			if s := getStrHash(&self.Next, key, N); s != nil {
 				s.setNode(val)
 				return true, nil
@@ -1007,7 +1010,7 @@ func (self *PathNode) GetByInt(key int, opts *Options) *PathNode {
 		// TODO: size may change after Set. Use better way to store hash size
 		n, _ := self.Node.len()
 		N := n * 2
-		if cap(self.Next) >= N {
+		if N > 0 && cap(self.Next) >= N {
 			if s := getIntHash(&self.Next, uint64(key), N); s != nil {
 				return s
 			}
@@ -1039,7 +1042,7 @@ func (self *PathNode) SetByInt(key int, val Node, opts *Options) (bool, error) {
 	if opts.StoreChildrenByHash {
 		n, _ := self.Node.len()
 		N := n * 2
-		if cap(self.Next) >= N {
+		if N > 0 && cap(self.Next) >= N {
 			if s := getIntHash(&self.Next, uint64(key), N); s != nil {
 				s.setNode(val)
 				return true, nil
